@@ -57,10 +57,10 @@ def shards(tier, seed):
     else:
         for a in SIGMA14:
             for b in SIGMA14:
-                out.append({'sub': 'len7_14', 'alpha': 'S14', 'prefix': a + b, 'lens': [5], 'bounds': 'all strings of length 7 over 14 chars'})
+                out.append({'sub': 'len6_14', 'alpha': 'S14', 'prefix': a + b, 'lens': [4], 'bounds': 'all strings of length 6 over 14 chars (already inside the full space; kept as a cross-check of sharding)'})
         for a in SIGMA8:
             for b in SIGMA8:
-                out.append({'sub': 'len9_8', 'alpha': 'S8', 'prefix': a + b, 'lens': [6, 7], 'bounds': 'all strings of length 8-9 over 8 chars (alignment/string/escape characters)'})
+                out.append({'sub': 'len8_8', 'alpha': 'S8', 'prefix': a + b, 'lens': [5, 6], 'bounds': 'all strings of length 7-8 over 8 chars (alignment/string/escape characters)'})
     return out
 
 
